@@ -3,7 +3,7 @@
    and completeness are checked on the implementation's traces (see DESIGN.md, C02). *)
 From Coq Require Import List ZArith NArith Bool Arith.
 Import ListNotations.
-From I2N Require Import Model.Retry Model.Traverse Model.TraverseRun Proofs.TraverseProofs Proofs.TraverseInv Proofs.TraverseAvail Proofs.TraverseExit.
+From I2N Require Import Model.Retry Model.Traverse Model.TraverseRun Proofs.TraverseProofs Proofs.TraverseInv Proofs.TraverseAvail Proofs.TraverseExit Proofs.TraversePath.
 Local Open Scope nat_scope.
 
 (* no pick from an exhausted node: the loop picks a child only of a node that is not cleanup-ready
@@ -52,3 +52,13 @@ Theorem C02_exit_means_subtree_visited : forall g p sched w0 c,
   In (EExit w0) (concat (snd r)) -> reach g c -> cleanup_ready g (fst r) c 0 = true.
 Proof. intros g p sched w0 c Hg Hall r Hx Hr. exact (proj1 (exit_means_done g p sched w0 c Hg Hall Hx Hr)). Qed.
 Print Assumptions C02_exit_means_subtree_visited.
+
+(* no traversal error, for EVERY graph whose edges are symmetric, whose root has no parents and is the only parent of the
+   nodes below it (pwf_b, checked on every exported graph), every pool population, every schedule and outcome assignment
+   and ANY number of workers: no section ever reports a pick from an exhausted node (code 1), a discontinuous path
+   (code 2), or an exit away from the starting point / an empty path (code 4).  The failure codes the model can still
+   emit are 3 and 5 (run / clean policy undefined for the node's settings) and 6 (the model's own loop fuel). *)
+Theorem C02_no_path_errors : forall g p sched evs v c, pwf_b g = true ->
+  In evs (snd (run_schedule g (init_state g p) sched)) -> In (EFail v c) evs -> c = 3%N \/ c = 5%N \/ c = 6%N.
+Proof. exact no_path_errors_b. Qed.
+Print Assumptions C02_no_path_errors.
